@@ -41,6 +41,9 @@ def run(chk):
                    "with validation enabled a pipeline can be built without passing check_layout", where(comp, t.get("ln")))
             # its error is returned: the Err arm reaches a Return without building
             errs = [i for i, j, s in cfg.stmts(lambda s: s.get("r") == "Agg" and short(s.get("adt", "")) == "CompileError" and s.get("variant") == "Text")]
+            text_helpers = {b2["path"] for b2 in f.crates[comp["crate"]]["bodies"] if "thir" in b2 and b2["path"] != comp["path"] and
+                            any(short(a.get("adt", "")) == "CompileError" and a.get("variant") == "Text" for a in F.exprs(b2["thir"], "Adt"))}
+            errs += [bb2 for bb2, t2 in cfg.calls() if cfg.callee(t2) in text_helpers]
             after = [i for i in errs if cfg.dominates(bb, i)]
             ok_err = any(all(b2 not in cfg.reachable_from(i) for b2, _ in bps) for i in after)
             chk.ob("C19.wire/error-returned", ok_err, "a layout error is turned into CompileError::Text and returned" if ok_err else
